@@ -147,22 +147,26 @@ Proof. repeat split; vm_compute; reflexivity. Qed.
 
 (* Scala, a package name without a dot - the witness of the repaired finding C10-scala-package-brace (scala.rs
    end_package / end_package_object printed `}` although begin_package / begin_package_object had opened nothing) as a
-   regression pin: the former witness now gives exactly the case class at top level, no closing brace after it, and
-   the file is balanced; a program that fills both blocks (unsigned aliases and an alias in the package object,
-   a struct and an enum in the package) is balanced too; neither is in any finding class *)
+   regression pin.  Since the /repo fix of C10-scala-toplevel-alias the dotless name opens its blocks as well: the
+   former witness now gives exactly `package onepassword {`, the case class, `}`, and the file is balanced; a program
+   that fills both blocks (unsigned aliases and an alias in `package object onepassword {`, a struct and an enum in
+   the package) is balanced too; neither is in any finding class *)
 Definition w_brace_cfg : sc_config := w_sc_cfg "onepassword".
 Definition w_brace_pd : parsed := w_pd [w_struct [w_field "x" (RPrim PString) false]] [] [].
 Definition w_brace_text : str :=
+  lit "package onepassword {" ++ [10] ++ [10] ++
   lit "// first line" ++ [10] ++ lit "// second line" ++ [10] ++ lit "case class A (" ++ [10] ++
-  [9] ++ lit "// a doc line with ""quotes"" and `ticks`" ++ [10] ++ [9] ++ lit "x: String" ++ [10] ++ lit ")" ++ [10] ++ [10].
+  [9] ++ lit "// a doc line with ""quotes"" and `ticks`" ++ [10] ++ [9] ++ lit "x: String" ++ [10] ++ lit ")" ++ [10] ++ [10] ++
+  lit "}" ++ [10].
 Lemma scala_package_brace_fixed :
   c10_sc_cfg_ok w_brace_cfg = true /\ contains_char sc_ch_dot (sc_package w_brace_cfg) = false /\
   dom_C10 CSC w_brace_pd = true /\ c10_has_items w_brace_pd = true /\ known_C10 CSC (sc_package w_brace_cfg) w_brace_pd = [] /\
   sc_generate uc_exec w_brace_cfg w_brace_pd = Ok w_brace_text /\
-  contains_sub (lit "case class A (") w_brace_text = true /\ contains_sub (lit "}") w_brace_text = false /\
+  contains_sub (lit "case class A (") w_brace_text = true /\ contains_sub (lit "package onepassword {") w_brace_text = true /\
   good_C10_lex CSC w_brace_text = true /\
   exists text, dom_C10 CSC w_prog = true /\ known_C10 CSC (sc_package w_brace_cfg) w_prog = [] /\
     sc_generate uc_exec w_brace_cfg w_prog = Ok text /\ contains_sub (lit "type ULong = Int") text = true /\
+    contains_sub (lit "package object onepassword {") text = true /\
     contains_sub (lit "case class A (") text = true /\ good_C10_lex CSC text = true.
 Proof. repeat split; try (vm_compute; reflexivity). eexists. repeat split; vm_compute; reflexivity. Qed.
 
